@@ -35,6 +35,7 @@ pub fn profile_general() -> Profile {
         max_depth: 2,
         hostile_names: false,
         generic_recv: false,
+        flatten_weight: 2,
     }
 }
 
@@ -307,6 +308,39 @@ fn enum_plan() -> Plan {
     }
 }
 
+/// C17: flatten chains up to depth 3, nested receivers inside flatten members, many near-miss names
+pub fn profile_suggest() -> Profile {
+    Profile {
+        name: "suggest",
+        traits: vec![Trait::Meta, Trait::Meta, Trait::DeriveInput, Trait::Field],
+        p_enum: 2,
+        p_nested: 5,
+        magic: false,
+        supports: false,
+        forward_attrs: false,
+        flatten: true,
+        options: true,
+        body_recv: false,
+        max_depth: 3,
+        hostile_names: false,
+        generic_recv: false,
+        flatten_weight: 6,
+    }
+}
+
+fn suggest_plan() -> Plan {
+    Plan {
+        tag: "suggest",
+        profile: profile_suggest(),
+        programs: (128, 900),
+        per_program: (120, 400),
+        cases: general_cases,
+        min_nontrivial: 200,
+        adopt: &[],
+        suggestions: true,
+    }
+}
+
 pub fn profile_element() -> Profile {
     Profile {
         name: "element",
@@ -322,6 +356,7 @@ pub fn profile_element() -> Profile {
         max_depth: 1,
         hostile_names: false,
         generic_recv: false,
+        flatten_weight: 2,
     }
 }
 
@@ -340,6 +375,7 @@ pub fn profile_enum() -> Profile {
         max_depth: 1,
         hostile_names: false,
         generic_recv: false,
+        flatten_weight: 2,
     }
 }
 
@@ -358,6 +394,7 @@ pub fn profile_magic() -> Profile {
         max_depth: 1,
         hostile_names: false,
         generic_recv: false,
+        flatten_weight: 2,
     }
 }
 
@@ -376,6 +413,7 @@ pub fn profile_compile_hostile() -> Profile {
         max_depth: 2,
         hostile_names: true,
         generic_recv: true,
+        flatten_weight: 2,
     }
 }
 
@@ -1237,6 +1275,7 @@ fn main() {
                 Some("element") => element_plan(),
                 Some("enum") => enum_plan(),
                 Some("magic") => magic_plan(),
+                Some("suggest") => suggest_plan(),
                 Some("nosuggest") => Plan {
                     tag: "nosuggest",
                     profile: profile_general(),
